@@ -16,7 +16,7 @@ RULE = ('Transactions are generated field by field (version/locktime/sequence bo
         'standard templates / push sequences / well-formed opcode mixes / junk bytes, witness stacks incl. empty and '
         'one-byte items, coinbases with and without witness, mixed witness presence), serialised by ref/wire and '
         'parsed with strict=True and strict=False. Blocks: random header + coinbase + 0..5 transactions. '
-        'Non-trivial = any boundary shape (count or length on a CompactSize boundary, empty or one-byte script or '
+        'Non-trivial = any boundary shape (count or length on a Comp[incl. items of 65534..65537 bytes and explicitly encoded PUSHDATA1/2/4 pushes] actSize boundary, empty or one-byte script or '
         'witness item, coinbase, segwit with a witness-less input, non-standard script); distinct by raw bytes.')
 ASSUMPTIONS = ['ref/wire.py serialises/parses transactions and blocks per the protocol (self-tested on the genesis '
                'block and BIP143 example)',
